@@ -3,6 +3,7 @@ Require Extraction.
 Require ExtrOcamlBasic.
 From Coq Require Import ZArith QArith.
 From TW Require Import All.
+From TW Require Import Pipeline.
 From TW Require Import Chars Esc Word Separators Splitters Num FirstFit OptFit Wrap Refill Indent Columns Custom.
 Extraction Language OCaml.
 Extraction "model.ml"
@@ -18,4 +19,5 @@ Extraction "model.ml"
   unfill refill non_empty_lines
   indent dedent
   wrap_columns custom3
+  pipeline_words line_widths body lastw_pen
   wf_strip greedy_b take_ws has_nonws is_prefix_char split_terminator_lf trim_end ends_with join spaces.
